@@ -369,12 +369,14 @@ fn run_chan_mt(tape: &mut Tape, nthreads: usize, maxlen: usize, verbose: bool) -
         .expect("insert");
     let handle = el.handle();
     let mut joins = vec![];
+    let kept: Arc<Mutex<Vec<Sender<u32>>>> = Arc::new(Mutex::new(vec![]));
     let total_ops: usize = chosen.iter().map(|p| p.len()).sum();
     for (i, prog) in chosen.iter().enumerate() {
         let tid = i + 1;
         let mut handles: Vec<Sender<u32>> = vec![tx.clone()];
         let prog = prog.clone();
         let sh = shared.clone();
+        let keep = kept.clone();
         joins.push(sched::spawn(tid, move || {
             let mut seq = 0u32;
             for op in prog {
@@ -397,6 +399,12 @@ fn run_chan_mt(tape: &mut Tape, nthreads: usize, maxlen: usize, verbose: bool) -
                 }
             }
             sched::point("end");
+            if variant == 2 {
+                // long-lived senders: every Sender pings the loop when it is dropped, which would
+                // flush whatever a lost wake-up left in the queue; here nothing is dropped until
+                // the experiment is over
+                keep.lock().unwrap().append(&mut handles);
+            }
             drop(handles);
         }));
     }
